@@ -512,7 +512,7 @@ Definition dop_spec (op : dop) (data noise arg : QM) : geom * geom :=
   | DSimulate p => (geom_of data, geom_of (if p then noise else data))
   end.
 
-Inductive case :=
+Inductive obs :=
 | KGrid (op : gop) (M : QM) (out : res (list qpt))
 | KGeom (op : mop) (M : QM) (out : option geom)
 | KPoint (op : pop) (M : QM) (out : option qpt)
@@ -524,7 +524,7 @@ Inductive case :=
 | KRect (sy sx : Z) (g : list qpt) (buffer : Q) (out_ps out_org : qpt) (out_mesh : list qpt) (out_map : list Z)
 | KDataset (op : dop) (data noise arg : QM) (out : geom * geom).
 
-Definition agree (k : case) : bool :=
+Definition agree1 (k : obs) : bool :=
   match k with
   | KGrid op M out => res_eqb qg_eqb (gop_model op M) out
   | KGeom op M out => option_eqb geom_eqb (mop_model op M) out
@@ -543,7 +543,8 @@ Definition agree (k : case) : bool :=
   | KDataset op d n a out => prod_eqb geom_eqb geom_eqb (dop_model op d n a) out
   end.
 
-Definition spec_ok (k : case) : bool :=
+(* the origin-free closed forms accept the implementation's output (single origin) *)
+Definition rel_ok1 (k : obs) : bool :=
   match k with
   | KGrid op M out => res_eqb qg_eqb (gop_spec op M) out
   | KGeom op M out => option_eqb geom_eqb (mop_spec op M) out
@@ -560,5 +561,70 @@ Definition spec_ok (k : case) : bool :=
       && qg_eqb (shift oorg (rel_grid (all_false sy sx) ops)) omesh
   | KDataset op d n a out => prod_eqb geom_eqb geom_eqb (dop_spec op d n a) out
   end.
+
+
+(* A correspondence case = the same entry point observed at origin o and at origin o + d (every coordinate-valued
+   argument translated by d as well). *)
+Inductive case := KPair (d : qpt) (a b : obs).
+
+Definition gshift_res (d : qpt) (x : res (list qpt)) : res (list qpt) := @rshift QOps d x.
+Definition geom_shift (d : qpt) (g : geom) : geom := let '(h, w, p, o) := g in (h, w, p, @padd QOps o d).
+Definition M_translated (d : qpt) (A B : QM) : bool :=
+  list_eqb (list_eqb Bool.eqb) (mk A) (mk B) && qpt_eqb (mps A) (mps B) && qpt_eqb (@padd QOps (morg A) d) (morg B).
+Definition pts_translated (d : qpt) (p q : list qpt) : bool := qg_eqb (@shift QOps d p) q.
+Definition gop_translated (d : qpt) (a b : gop) : bool :=
+  match a, b with
+  | GRadial c ss rm, GRadial c' ss' rm' => qpt_eqb (@padd QOps c d) c' && (ss =? ss')%Z && Bool.eqb rm rm'
+  | GSel i, GSel i' => list_eqb Nat.eqb i i'
+  | GDerived m, GDerived m' => list_eqb (list_eqb Bool.eqb) m m'
+  | GOver s, GOver s' => list_eqb Z.eqb s s'
+  | GPadded a1 a2, GPadded b1 b2 | GOverlay a1 a2, GOverlay b1 b2 => (a1 =? b1)%Z && (a2 =? b2)%Z
+  | GHilbertImage n, GHilbertImage n' => (n =? n')%Z
+  | GHilbertCurve c r, GHilbertCurve c' r' => qg_eqb c c' && Qeq_bool r r'
+  | GScaledOfPixels p, GScaledOfPixels p' | GScaledOfPixelCentres p, GScaledOfPixelCentres p' => qg_eqb p p'
+  | GFromMask, GFromMask | GAllFalse, GAllFalse => true
+  | _, _ => false
+  end.
+Definition mop_same (a b : mop) : bool :=
+  match a, b with
+  | MZoomUnmasked, MZoomUnmasked => true
+  | MZoomedAround x, MZoomedAround y => (x =? y)%Z
+  | MPadded a1 a2, MPadded b1 b2 => (a1 =? b1)%Z && (a2 =? b2)%Z
+  | _, _ => false
+  end.
+
+(* THE PROPERTY, on two runs of the implementation: coordinate-valued results differ by exactly d, index-valued results are
+   identical (and the second run really was given the translated inputs).  Does not call the model. *)
+Definition spec_ok (k : case) : bool :=
+  let '(KPair d a b) := k in
+  match a, b with
+  | KGrid op M out, KGrid op' M' out' => M_translated d M M' && gop_translated d op op' && res_eqb qg_eqb (gshift_res d out) out'
+  | KGeom op M out, KGeom op' M' out' =>
+      M_translated d M M' && mop_same op op' && option_eqb geom_eqb (option_map (geom_shift d) out) out'
+  | KPoint op M out, KPoint op' M' out' =>
+      M_translated d M M' &&
+      match op, op' with
+      | PMaskCentre, PMaskCentre => option_eqb qpt_eqb (@oshift QOps d out) out'
+      | PZoomOffsetScaled, PZoomOffsetScaled | PZoomCentre, PZoomCentre | PZoomOffsetPixels, PZoomOffsetPixels =>
+          option_eqb qpt_eqb out out'
+      | _, _ => false
+      end
+  | KExtent M out, KExtent M' out' => M_translated d M M' && qext_eqb (@ext_shift QOps d out) out'
+  | KPixelCoords M p out, KPixelCoords M' p' out' | KPixelCentres M p out, KPixelCentres M' p' out' =>
+      M_translated d M M' && pts_translated d p p' && list_eqb zz_eqb out out'
+  | KPixelIndexes M p out, KPixelIndexes M' p' out' => M_translated d M M' && pts_translated d p p' && list_eqb Z.eqb out out'
+  | KPixelFloats M p out, KPixelFloats M' p' out' => M_translated d M M' && pts_translated d p p' && qg_eqb out out'
+  | KRect sy sx g b ops oorg omesh omap, KRect sy' sx' g' b' ops' oorg' omesh' omap' =>
+      (sy =? sy')%Z && (sx =? sx')%Z && pts_translated d g g' && Qeq_bool b b' && qpt_eqb ops ops'
+      && qpt_eqb (@padd QOps oorg d) oorg' && pts_translated d omesh omesh' && list_eqb Z.eqb omap omap'
+  | KDataset op da na aa out, KDataset op' da' na' aa' out' =>
+      M_translated d da da' && M_translated d na na' && M_translated d aa aa'
+      && prod_eqb geom_eqb geom_eqb (geom_shift d (fst out), geom_shift d (snd out)) out'
+  | _, _ => false
+  end.
+
+(* model = implementation at both origins, and the origin-free closed forms accept both outputs *)
+Definition agree (k : case) : bool :=
+  let '(KPair d a b) := k in agree1 a && agree1 b && rel_ok1 a && rel_ok1 b.
 
 Definition check (k : case) : nat := verdict (agree k) (spec_ok k).
